@@ -5,7 +5,7 @@ import json, os, subprocess, sys, time
 tier, deadline, B, root = sys.argv[1], float(sys.argv[2]), sys.argv[3], sys.argv[4]
 # cheap engines first; every engine gets its share of the time that is still left, so unused time flows to the expensive ones
 engines = ['mapped', 'copymove', 'cabi', 'multidim', 'dynamic', 'search']
-share = {'search': 0.38, 'multidim': 0.14, 'mapped': 0.05, 'dynamic': 0.2, 'cabi': 0.17, 'copymove': 0.06}
+share = {'search': 0.36, 'multidim': 0.12, 'mapped': 0.06, 'dynamic': 0.2, 'cabi': 0.2, 'copymove': 0.06}
 t0 = time.time()
 agg = {'states': 0, 'transitions': 0, 'traces_validated_against_impl': 0, 'evaluations': 0, 'distinct_nontrivial': 0}
 per_engine, samples, rules, violations, herr, exhaustive, rc_all = {}, [], [], 0, 0, True, 0
